@@ -26,3 +26,7 @@ resolved_path_of = uninterp("resolved_path_of", ["ref"], "opaque")
 # ---- resolution (C10 / C11): which binding defines an identifier is decided by _resolve_identifier (bounded stand-in b_c10);
 # contracts of its callers only need a name for its answer
 defining_binding = uninterp("defining_binding", ["ref"], "ref")
+
+# the context the registry currently holds for an expression (what resolution._get_context answers); contracts of its
+# callers only need a name for it
+stored_context = uninterp("stored_context", ["ref"], "ref")
